@@ -6,8 +6,17 @@ K2 (exactly once, per-writer order), K3 (bounded queue) and the liveness K4 / No
 fairness, exhaustively on small constants.  Binding T: real handshakeTransport pairs (verif hooks:
 recording keyingTransport + 'queued'/'kexdone' linearization points under t.mu) are driven by
 concurrent writers/readers/re-keys; each recorded execution must be a behaviour of
-SSHRekey_Trace.tla instantiated with the real constants."""
-import json, os
+SSHRekey_Trace.tla instantiated with the real constants.
+
+Bounded network: the model's byte stream has a per-direction capacity NetCap (a transport-level
+write blocks while the pipe is full) and the post-kex completion is 'release readLoop' (its own
+step) followed by the one-packet-per-step flush under mu.  SSHRekey_BS/BLq (and BL, BS2 in the
+thorough tier) check no-deadlock and the liveness properties with NetCap = 1 (2);
+SSHRekey_DocRAF (release moved behind the flush) must produce the dead-lock.  On the code the
+scenario BothQueueBeyondPipe (harness/c31/c31_pipe_test.go) runs real handshakeTransport pairs over
+a bounded in-memory conn (32 KiB per direction) with ~384 KiB queued on EACH side during a held
+re-exchange."""
+import concurrent.futures, json, os, re
 import vlib
 
 TRACE_CFG = """SPECIFICATION TraceSpec
@@ -20,6 +29,8 @@ CONSTANTS
   Threshold = 1000000000
   PktLens = {1}
   ExtInfo = TRUE
+  NetCap = 1000000000
+  ReleaseAfterFlush = FALSE
 INVARIANTS K1Wire K2State K3 QueueOnlyInKex
 CONSTRAINT HWM
 VIEW TraceView
@@ -37,26 +48,90 @@ def record(ctx, n, race=False):
             traces.append(d["events"]); scen.append(d["scenario"])
     return res, traces, scen
 
+def pipe(ctx, n, race=False):
+    """scenario BothQueueBeyondPipe on the bounded conn; returns (harness result, recorded traces)"""
+    tf = ctx.tmp("c31_pipe_traces_%d.ndjson" % len(os.listdir(ctx.scratch)))
+    res = ctx.go_test("c31", "TestBothQueueBeyondPipe", env={"VERIF_N": n, "VERIF_TRACES": tf}, timeout=900, race=race)
+    traces = []
+    if os.path.exists(tf):
+        for line in open(tf):
+            traces.append(json.loads(line)["events"])
+    ex = res.get("extra") or {}
+    dead = [v for v in (res.get("violations") or []) if v.get("sig", "").startswith("rekey-deadlock")]
+    if ex.get("pipe_infra_stalls", 0) and not dead:
+        raise vlib.Infra("BothQueueBeyondPipe: %d stall(s) that the goroutine dump does not classify as the dead-lock:\n%s"
+                         % (ex["pipe_infra_stalls"], res.get("_stdout", "")[-3000:]))
+    if not dead and not ex.get("pipe_completed", 0):
+        raise vlib.Infra("BothQueueBeyondPipe: no run completed")
+    # vacuity guard: both sides must really have had more queued bytes than the pipe holds when the exchange completed
+    lim = int(ex.get("pipe_limit", 0))
+    qc, qs = int(ex.get("pipe_min_queued_c", 0)), int(ex.get("pipe_min_queued_s", 0))
+    if lim <= 0 or qc <= lim or qs <= lim:
+        raise vlib.Infra("BothQueueBeyondPipe is vacuous: queued bytes at kexdone c=%d s=%d, pipe capacity %d" % (qc, qs, lim))
+    return res, traces
+
+def design(ctx):
+    """TLC runs on the design, in parallel; a counterexample in the design alone is never a verdict"""
+    jobs = {
+        "QS": dict(cfg="SSHRekey_QS.cfg", workers=8, note="safety K1 K2 K3, 1 writer x 2 packets per side, queue 1, 1 explicit + threshold re-keys, unbounded network"),
+        "QL": dict(cfg="SSHRekey_QL.cfg", workers=2, note="liveness K4/NoStuckWriter under fairness, unbounded network"),
+        "BS": dict(cfg="SSHRekey_BS.cfg", workers=4, note="bounded network NetCap=1, queue 2, 2 packets per side: safety + NoDeadlock (ENABLED of every fair step unless all is done)"),
+        "BLq": dict(cfg="SSHRekey_BLq.cfg", workers=2, note="bounded network NetCap=1, queue 1, 1 packet per side: liveness K4, NoStuckWriter, EveryWriteReturns, QueueDrains under fairness"),
+        "DocRAF": dict(cfg="SSHRekey_DocRAF.cfg", workers=2, expect_violation=True,
+                       note="documentation: release of readLoop moved behind the flush -> dead-lock (both flushes blocked on a full pipe)"),
+    }
+    if ctx.thorough:
+        jobs.update({
+            "Q": dict(cfg="SSHRekey_Q.cfg", workers=4, note="safety+liveness, 1 writer x 2 packets, unbounded network"),
+            "T": dict(cfg="SSHRekey_T.cfg", workers=16, simulate=20000, depth=200, note="2 writers x 2 packets, queue 2: random simulation (exhaustive does not finish)"),
+            "BL": dict(cfg="SSHRekey_BL.cfg", workers=4, note="bounded network NetCap=1, queue 2, 2 packets per side: liveness K4, NoStuckWriter, EveryWriteReturns, QueueDrains"),
+            "BS2": dict(cfg="SSHRekey_BS2.cfg", workers=8, note="bounded network NetCap=2, queue 3, 3 packets per side: safety + NoDeadlock"),
+            "DocRAFL": dict(cfg="SSHRekey_DocRAFL.cfg", workers=2, expect_violation=True,
+                            note="documentation: release behind the flush -> K4 violated (liveness counterexample)"),
+        })
+    res = {}
+    with concurrent.futures.ThreadPoolExecutor(max_workers=len(jobs)) as ex:
+        futs = {k: ex.submit(ctx.tlc, "SSHRekey", timeout=3000, count=False, **kw) for k, kw in jobs.items()}
+        for k, f in futs.items():
+            res[k] = f.result()
+    for k, r in res.items():
+        ctx.log("%s: %d distinct states, %.0fs, violated=%s" % (k, r.distinct, r.wall, r.violated))
+        if k == "DocRAF":
+            last = re.findall(r'/\\ kx = \[s \|-> "(\w+)", c \|-> "(\w+)"\]', r.cex or "")
+            if r.violated != "NoDeadlock" or not last or last[-1] != ("flushing", "flushing"):
+                raise vlib.Infra("SSHRekey_DocRAF no longer produces the dead-lock with both kexLoops flushing (violated=%r, last kx=%r): "
+                                 "the bounded-network model lost its discriminating power" % (r.violated, last[-1:] ))
+            continue
+        if k == "DocRAFL":
+            if r.violated != "K4":
+                raise vlib.Infra("SSHRekey_DocRAFL: K4 was expected to be violated, got %r" % r.violated)
+            continue
+        if not r.ok:
+            raise vlib.Infra("design model SSHRekey/%s: %s violated (model-level counterexample, not reproduced on code):\n%s"
+                             % (k, r.violated, (r.cex or r.raw[-3000:])[:6000]))
+        ctx.states += r.distinct
+        ctx.transitions += r.generated
+
 def run(ctx):
     ctx.rule = ("cases = recorded executions of a real client/server handshakeTransport pair under a seeded random scenario "
                 "(1-4 writers per side, 3-70 packets each, RekeyThreshold in {256,1024,4096,default}, explicit re-keys from both sides, "
                 "slow readers, goroutine yields; every 5th scenario stalls the peer's reader so that > maxPendingPackets writes pile up "
-                "during a key exchange); distinct = distinct scenario parameter vectors; each execution is validated event by event "
-                "against SSHRekey_Trace with the real maxPendingPackets/chanSize")
+                "during a key exchange); plus scenario BothQueueBeyondPipe on a bounded conn (32 KiB per direction): a re-exchange held open "
+                "in the client's HostKeyCallback while each side queues 40-63 packets of 4-12 KiB (base case 48 x 8 KiB), then released, both "
+                "applications reading, one more writePacket per side after the exchange; distinct = distinct scenario parameter vectors; "
+                "each execution is validated event by event against SSHRekey_Trace with the real maxPendingPackets/chanSize")
     ctx.assumptions = [
         "events are appended to one log under one lock: 'wire' at keyingTransport.writePacket entry, 'recv' after readPacket returns, "
         "'queued'/'kexdone' under handshakeTransport.mu, driver call/return/delivery events around the public calls",
         "the trace spec gives the application reader one extra slot (a packet taken from the incoming channel but not yet logged)",
         "when byte/packet thresholds fire is not part of the property: the trace spec lets a rekey request appear at any time",
-        "liveness on real runs is judged at quiescence with a 45 s watchdog plus goroutine-dump classification; an unclassifiable stall is exit 2"]
+        "liveness on real runs is judged at quiescence with a 45 s (25 s in BothQueueBeyondPipe) watchdog plus goroutine-dump classification; "
+        "an unclassifiable stall is exit 2",
+        "the model's pipe capacity counts packets (NetCap = 1 or 2), the harness conn counts bytes (32 KiB): both mean 'less than one side's queue'",
+        "'wire' is logged at writePacket entry, before conn.Write can block: the trace spec keeps an unbounded wire also for the bounded-conn "
+        "scenario, whose blocking behaviour is judged at property level (delivery, order, writePacket returns) by the driver"]
     # 1. the design: exhaustive model checking
-    ctx.tlc_must_hold("SSHRekey", cfg="SSHRekey_QS.cfg", timeout=1200, note="safety K1 K2 K3, 1 writer x 2 packets per side, queue 1, 1 explicit + threshold re-keys")
-    ctx.tlc_must_hold("SSHRekey", cfg="SSHRekey_QL.cfg", timeout=1200, note="liveness K4/NoStuckWriter under fairness")
-    if ctx.thorough:
-        ctx.tlc_must_hold("SSHRekey", cfg="SSHRekey_Q.cfg", timeout=3000, note="safety+liveness, 1 writer x 2 packets")
-        r = ctx.tlc("SSHRekey", cfg="SSHRekey_T.cfg", timeout=3000, simulate=20000, depth=200, workers=16, note="2 writers x 2 packets, queue 2: random simulation (exhaustive does not finish)")
-        if not r.ok:
-            raise vlib.Infra("SSHRekey_T simulation found a design-level counterexample: %s" % r.violated)
+    design(ctx)
     # 2. the code: record and validate
     n = ctx.pick(40, 400)
     res, traces, scen = record(ctx, n)
@@ -74,6 +149,17 @@ def run(ctx):
     for b in range(0, len(traces), B):
         ctx.validate_traces_cfg = cfg
         _validate(ctx, traces[b:b + B], cfg)
+    # 3. the code on a bounded byte stream: both sides queue more than the pipe holds during one re-exchange
+    pres, ptraces = pipe(ctx, ctx.pick(6, 24))
+    ctx.absorb(pres, validated=False)
+    _validate(ctx, ptraces, cfg)
+    ctx.extra["events_validated"] += sum(len(t) for t in ptraces)
+    if ctx.thorough:
+        pres2, ptraces2 = pipe(ctx, 6, race=True)
+        pres2["extra"] = {}
+        ctx.absorb(pres2, validated=False)
+        _validate(ctx, ptraces2, cfg)
+        ctx.extra["events_validated"] += sum(len(t) for t in ptraces2)
     if ctx.thorough:
         res2, traces2, _ = record(ctx, 60, race=True)
         ctx.absorb(res2, validated=False)
